@@ -163,3 +163,8 @@ func VerifReplayMain(f func()) {
 	f()
 	fmt.Println("VERIF-REPLAY-DONE")
 }
+
+// Non-forking boolean connectives (plain && / || natively; single terms in the engine).
+func VerifAnd(a, b bool) bool     { return a && b }
+func VerifOr(a, b bool) bool      { return a || b }
+func VerifImplies(a, b bool) bool { return !a || b }
